@@ -7,7 +7,12 @@ use parking_lot::Mutex;
 use serde_json::json;
 use std::collections::HashMap;
 use std::sync::atomic::{AtomicU64, Ordering};
+#[cfg(not(rustrtc_verif))]
 use std::time::{Duration, Instant};
+#[cfg(rustrtc_verif)]
+use std::time::Duration;
+#[cfg(rustrtc_verif)]
+use crate::verif_hooks::Instant;
 
 /// Entries in `sent_sr_times` older than this are stale for RTT computation and
 /// eligible for eviction (prevents unbounded growth over long calls).
@@ -222,7 +227,10 @@ pub struct StatsCollector {
     local_outbound: Mutex<HashMap<u32, LocalOutboundStats>>,
     /// Maps ntp_least → Instant for outgoing Sender Reports, used to compute
     /// round-trip time from the LSR/DLSR fields of incoming Receiver Reports.
+    #[cfg(not(rustrtc_verif))]
     sent_sr_times: Mutex<HashMap<u32, std::time::Instant>>,
+    #[cfg(rustrtc_verif)]
+    sent_sr_times: Mutex<HashMap<u32, Instant>>,
     last_rr_sent: Mutex<Option<Instant>>,
     /// Monotonic counter used only to pace RR emission.
     packets_since_rr: AtomicU64,
